@@ -74,7 +74,8 @@ theorem valid_fixed_numbering (rank : Nat → Nat) (g0 : Graph V) (hwf : Ranked 
   (valid_of_fixed_rank hwf ops hops).1
 
 /-- **never stale**: after any history, `Value()` of any node returns the from-scratch value of
-    the current graph -/
+    the current graph (guard `ReadsAll` here is a limitation of the proof, not of the code: for
+    processors that skip inputs freshness is checked on the implementation, see the header) -/
 theorem read_fresh (g0 : Graph V) (h0 : Init F g0) (hra : ReadsAll g0) (ops : List (Op V)) (hv : Valid F g0 ops) (i : Nat) :
     val (step F (run F g0 ops).1 (.read i)).1 i = Spec F (run F g0 ops).1 i := by
   have hinv := run_inv (h0.inv hra) ops hv
